@@ -166,7 +166,7 @@ func discharge(results []*FuncResult, timeoutS int, thorough bool, workers int) 
 	}
 	var jobs []job
 	for _, r := range results {
-		if r.VC == nil {
+		if r.VC == nil && !r.BV {
 			continue
 		}
 		for _, o := range r.Obligations {
@@ -180,7 +180,10 @@ func discharge(results []*FuncResult, timeoutS int, thorough bool, workers int) 
 		go func() {
 			defer wg.Done()
 			for j := range ch {
-				script := j.vc.script(j.o)
+				script := j.o.RawScript
+				if script == "" {
+					script = j.vc.script(j.o)
+				}
 				to := timeoutS
 				if j.o.ExpectSat && to > 3 {
 					to = 3
